@@ -103,6 +103,7 @@ type Obligation struct {
 	StructOK   bool
 	StructMsg  string
 	Observe  [][2]string // name, term
+	consistencyOnly bool // Text() emits only the assumptions (vacuity guard)
 	ObservePrefix int
 }
 
